@@ -22,16 +22,16 @@ def all_harnesses():
             for (ln, inf) in ((1, False), (3, False), (2, True)):
                 core = (k in (1, 2) and ln == 3 and not inf) or (k == 2 and inf and pos == 1)
                 hs.append(Harness(f"c07_fail_p{pos}_k{k}_l{ln}_{'inf' if inf else 'fin'}",
-                                  f"crate::c06::failing_block({pos}, {k}, {ln}, 2, {str(inf).lower()})", unwind=12,
+                                  f"crate::c06::failing_block({pos}, {k}, {ln}, 2, {str(inf).lower()})", unwind=28,
                                   unit="Graph::run error propagation", stubs=GSTUBS, timeout=1500,
                                   shape={"position": pos, "k": k, "len": ln, "infinite": inf}, core=core))
     for j in (1, 2, 3):
         for (ln, inf) in ((3, False), (2, True)):
             hs.append(Harness(f"c07_cancel_j{j}_l{ln}_{'inf' if inf else 'fin'}",
-                              f"crate::c06::cancelling_block({j}, {ln}, 2, {str(inf).lower()}, false)", unwind=12,
+                              f"crate::c06::cancelling_block({j}, {ln}, 2, {str(inf).lower()}, false)", unwind=28,
                               unit="Graph::run cancellation", stubs=GSTUBS, timeout=1500,
                               shape={"j": j, "len": ln, "infinite": inf, "pre_cancelled": False}, core=(j in (1, 2))))
-    hs.append(Harness("c07_precancel", "crate::c06::cancelling_block(0, 2, 2, true, true)", unwind=12,
+    hs.append(Harness("c07_precancel", "crate::c06::cancelling_block(0, 2, 2, true, true)", unwind=28,
                       unit="Graph::run cancellation", stubs=GSTUBS, shape={"pre_cancelled": True}, core=True))
     return hs
 
